@@ -260,3 +260,7 @@ UNITS += [ctor_unsigned, copy_unit]
 for _u in UNITS:
     if not _u.replay:
         _u.replay = replay.battery('C04/driver.cpp', ['battery'])
+
+# planted one-token breaks for the newer units (thorough tier: each must make an obligation fail)
+ctor_unsigned.planted = [('cu', r'y < 2147483648u', 'y <= 2147483648u')]
+copy_unit.planted = [('cp', r'S_NEW_OWN\(g_srclen\);\s*S_COPY_BYTES\(g_srclen\);', 'S_SHARE();')]
